@@ -5,7 +5,17 @@ use std::time::Instant;
 
 use serde_json::{json, Map, Value};
 
-pub const VERIF: &str = "/verif";
+/// Root of the verification tree: `<root>/mc/target/debug/vcheck` is this executable.
+pub fn verif_root() -> String {
+    if let Ok(r) = std::env::var("VERIF_ROOT") {
+        return r;
+    }
+    std::env::current_exe()
+        .ok()
+        .and_then(|p| p.ancestors().nth(4).map(|a| a.to_string_lossy().to_string()))
+        .filter(|r| std::path::Path::new(&format!("{}/properties.jsonl", r)).exists())
+        .unwrap_or_else(|| "/verif".to_string())
+}
 
 #[derive(Clone, Copy, PartialEq, Eq, Debug)]
 pub enum Tier {
@@ -33,7 +43,7 @@ struct Finding {
 }
 
 fn load_findings(property: &str) -> Vec<Finding> {
-    let path = format!("{}/known_findings.json", VERIF);
+    let path = format!("{}/known_findings.json", verif_root());
     let v: Value = match std::fs::read_to_string(&path).ok().and_then(|s| serde_json::from_str(&s).ok()) {
         Some(v) => v,
         None => return vec![],
@@ -75,10 +85,10 @@ pub struct Check {
 impl Check {
     pub fn new(id: &str, tier: Tier, level: &'static str) -> Check {
         let seed = std::env::var("VERIF_SEED").ok().and_then(|s| s.parse().ok()).unwrap_or(1);
-        std::fs::create_dir_all(format!("{}/evidence", VERIF)).ok();
-        std::fs::create_dir_all(format!("{}/replays", VERIF)).ok();
+        std::fs::create_dir_all(format!("{}/evidence", verif_root())).ok();
+        std::fs::create_dir_all(format!("{}/replays", verif_root())).ok();
         // stale replays of this property from earlier runs
-        if let Ok(rd) = std::fs::read_dir(format!("{}/replays", VERIF)) {
+        if let Ok(rd) = std::fs::read_dir(format!("{}/replays", verif_root())) {
             for e in rd.flatten() {
                 let n = e.file_name().to_string_lossy().to_string();
                 if n.starts_with(&format!("{}-", id)) {
@@ -132,7 +142,7 @@ impl Check {
         let first = !self.unlisted.contains_key(class);
         if first {
             self.replay_seq += 1;
-            let path = format!("{}/replays/{}-{}.json", VERIF, self.id, self.replay_seq);
+            let path = format!("{}/replays/{}-{}.json", verif_root(), self.id, self.replay_seq);
             let mut r = replay();
             if let Some(o) = r.as_object_mut() {
                 o.insert("property".into(), json!(self.id));
@@ -199,7 +209,7 @@ impl Check {
             "wall_s": (wall * 100.0).round() / 100.0,
             "violations": nviol,
         });
-        let path = format!("{}/evidence/{}.json", VERIF, self.id);
+        let path = format!("{}/evidence/{}.json", verif_root(), self.id);
         if let Err(e) = std::fs::write(&path, serde_json::to_string_pretty(&ev).unwrap()) {
             eprintln!("MACHINERY-ERROR: cannot write {}: {}", path, e);
             return 2;
